@@ -7,8 +7,10 @@ the reference model mc/ref/c01_model.py (which derives the expectation from the 
 
 Alphabets (written out in mc/ref/c01_model.py, echoed in evidence): TYPES (39 spellings of the types named in the
 property statement), values_for(type) (boundary values exactly representable in the type, each with a shape label),
-PATHS (10), PLACEMENTS (none / first / middle / last, plus one all-NULL cell per batch).
-quick = every type x every path x QUICK_SHAPES x {none, middle} + all-NULL;  thorough = the full product.
+PATHS (10), PLACEMENTS (NULL none / first / middle / last, plus one all-NULL cell per batch).
+PLACEMENTS also has "after_identity": the value preceded by the identity value of its type (0, '', False, {}, epoch..).
+quick = every type x every path x QUICK_SHAPES (keeps every identity value) x {none, first, middle, after_identity}
++ all-NULL;  thorough = the full product.
 
 Oracle clauses
   C01.accept     the write of a representable value is accepted (no exception from execute / write_pandas)
@@ -319,8 +321,9 @@ def classify(clause, ts, path, cell, rec):
         return f"path=wp_auto,dtype={rec['dtype']}" if clause == "C01.accept" else f"path=wp_auto,column={tg}"
     if clause == "C01.pytype":
         return f"type={tg}"  # the Python type of a column is a function of its declared type alone
-    value = next((v for _, v in cell["rows"] if v is not None), None)
-    vc = M.vclass(ts, cell["shape"], value)
+    vals = [v for _, v in cell["rows"] if v is not None]
+    value = vals[-1] if vals else None  # the value the shape label names (an identity value may precede it)
+    vc = M.vclass(ts, cell["shape"], value, vals[:-1])
     if tg == "int_synonyms" and vc != "within_int64" and vc != "null_only":
         # INT/INTEGER/BIGINT/SMALLINT/TINYINT/BYTEINT are NUMBER(38,0): one input feature (|v| beyond 64 bit) whatever
         # the path and whichever of the 38-digit boundary values
